@@ -113,7 +113,7 @@ def runSS (w : Worker) (c : Content) : Except Err (Content × List Seg × Bool) 
 /-- `.variables.iloc[-1]` / `.fluxes.iloc[-1]`: the last row of the lazy view (all names; the
     caller selects columns).  `none` = NaN placeholder. -/
 def lastRow (nan : Bool) (c : Content) (segs : List Seg) : Except Err (Content × Option (List (Name × Rat))) :=
-  match viewSegs nan c segs with
+  match viewKeep nan c segs with
   | .error e => .error e
   | .ok (c', rs) =>
     if nan then .ok (c', none)
